@@ -129,6 +129,16 @@ func c16BuildTx(name string) *wire.MsgTx {
 		}
 		return &tx
 	}
+	if name == "wide" {
+		tx := wire.NewMsgTx(2)
+		for k := 0; k < 253; k++ {
+			tx.AddTxIn(&wire.TxIn{PreviousOutPoint: wire.OutPoint{Hash: c16Hash(0xd7), Index: uint32(k)}, SignatureScript: c16Bytes(byte(k), 1+k%3), Sequence: uint32(k)})
+			tx.AddTxOut(&wire.TxOut{Value: int64(k), PkScript: c16P2PKH(byte(k))})
+		}
+		tx.TxOut[7].PkScript = c16Bytes(0x6a, 253)
+		tx.TxIn[9].SignatureScript = c16Bytes(0x51, 65536)
+		return tx
+	}
 	if strings.HasPrefix(name, "var#") { // distinct small transactions for the large block fixture
 		var k int
 		fmt.Sscanf(name[4:], "%d", &k)
@@ -189,6 +199,24 @@ var c16BlockTxs = map[string][]string{
 		}
 		return out
 	}(),
+	// 252 / 253 transactions: the CompactSize transaction count changes from one byte to three
+	"b252": func() []string {
+		out := []string{"coinbase"}
+		for k := 1; k < 252; k++ {
+			out = append(out, fmt.Sprintf("var#%d", k))
+		}
+		return out
+	}(),
+	"b253": func() []string {
+		out := []string{"coinbase"}
+		for k := 1; k < 253; k++ {
+			out = append(out, fmt.Sprintf("var#%d", k))
+		}
+		return out
+	}(),
+	// a transaction with 253 inputs, 253 outputs and a 253-byte script inside a block (three-byte counts
+	// and lengths inside a transaction)
+	"b3wide": {"coinbase", "wide", "minimal"},
 	"b300": func() []string {
 		out := []string{"coinbase"}
 		for k := 1; k < 300; k++ {
@@ -348,7 +376,7 @@ func c16Refs() {
 	c16Once.Do(func() {
 		c16BlockRefs = map[string]*c16Ref{}
 		c16TxRefs = map[string]*c16Ref{}
-		for _, n := range append(append([]string{}, c16BlockNames...), "b300", "b65540") {
+		for _, n := range append(append([]string{}, c16BlockNames...), "b252", "b253", "b3wide", "b300", "b65540") {
 			c16BlockRefs[n] = c16BlockRefOf(c16BuildBlock(n))
 		}
 		for _, n := range c16TxNames {
@@ -523,6 +551,21 @@ func c16Indices(n int) []int {
 const c16HeightArg = 7
 
 // c16BlockMenu is the operation alphabet of a block with n transactions.
+// c16FarIndices: out-of-range indices that look in range after narrowing
+func c16FarIndices(n int) []int {
+	out := []int{1 << 16, 1 << 32, 1<<32 - 1, 1 << 40, math.MinInt, -1 << 32, -1<<32 + 1, math.MaxInt32, math.MaxInt32 + 1}
+	if n > 0 {
+		out = append(out, 1<<32+(n-1), 1<<16+(n-1), -(1<<32)+(n-1))
+	}
+	var keep []int
+	for _, i := range out {
+		if i < 0 || i >= n {
+			keep = append(keep, i)
+		}
+	}
+	return keep
+}
+
 func c16BlockMenu(n int) []c16Op {
 	var m []c16Op
 	for _, i := range c16Indices(n) {
@@ -1240,6 +1283,15 @@ func c16RunBlock(w *mc.W, fixture, ctor string, ops []c16Op, wantKey, sweep bool
 			return key
 		}
 	}
+	// ... and the out-of-range indices whose low 16 / 32 bits are a valid position or -1 (an index
+	// narrowed before the range check), and the most negative ones
+	for _, i := range c16FarIndices(ref.n) {
+		for _, kind := range []int{c16OpTx, c16OpTxHash} {
+			if !r.step(len(ops), c16Op{kind, i}, true) {
+				return key
+			}
+		}
+	}
 	// hashes through the wrapped transactions themselves
 	for i, t := range r.txSeen {
 		if t == nil || i >= len(r.msg.Transactions) {
@@ -1631,7 +1683,16 @@ func runC16(c *mc.Ctx) {
 				big = append(big, c16BlockCase{Fixture: "b300", Ctor: ct, Ops: sq})
 			}
 		}
-		c.Space("block: 300-transaction fixture x constructor x fixed call sequences", int64(len(big)))
+		for _, ct := range c16BlockCtors { // CompactSize boundaries of the count (252 / 253) and inside a transaction
+			for _, fx := range []string{"b252", "b253"} {
+				n := len(c16BlockTxs[fx])
+				big = append(big, c16BlockCase{Fixture: fx, Ctor: ct, Ops: []string{"TxLoc", "Bytes", fmt.Sprintf("Tx(%d)", n-1), "TxHash(0)", fmt.Sprintf("Tx(%d)", n)}},
+					c16BlockCase{Fixture: fx, Ctor: ct, Ops: []string{fmt.Sprintf("TxHash(%d)", n-1), "Transactions", "TxLoc", "Hash"}})
+			}
+			big = append(big, c16BlockCase{Fixture: "b3wide", Ctor: ct, Ops: []string{"TxLoc", "Bytes", "Tx(1)", "TxHash(2)"}},
+				c16BlockCase{Fixture: "b3wide", Ctor: ct, Ops: []string{"Tx(2)", "TxHash(1)", "Transactions", "TxLoc", "Tx(2)"}})
+		}
+		c.Space("block: 252-, 253-, 300-transaction and wide-transaction fixtures x constructor x fixed call sequences", int64(len(big)))
 		c16ParFor(c, int64(len(big)), func(w *mc.W, i int64) { c16EvalBlock(w, big[i]) })
 		// 65536 transactions: locations, bytes and the two ends, every constructor (no final sweep)
 		var huge []c16BlockCase
